@@ -24,8 +24,6 @@
 //!   Output: -1 (device not enumerated) | -2 (no such channel) | results per op, -8 is_opened, -7 log
 //!     (log: calls after the enumeration, the final drop of the channel included)
 mod fake_usb;
-#[cfg(feature = "ctlreal")]
-mod ctlreal;
 
 use std::panic::{catch_unwind, AssertUnwindSafe};
 use std::time::Duration;
@@ -352,8 +350,6 @@ fn main() {
         let out = match c.word() {
             "enum" => run_enum(&mut c),
             "chan" => run_chan(&mut c),
-            #[cfg(feature = "ctlreal")]
-            "ctl" => ctlreal::run(&mut c),
             _ => vec![-99],
         };
         let s: Vec<String> = out.iter().map(|v| v.to_string()).collect();
